@@ -1,6 +1,7 @@
 package sim
 
 import (
+	"fmt"
 	"time"
 
 	"github.com/coyim/otr3"
@@ -54,6 +55,9 @@ type World struct {
 	Log   []*Wire    // every message ever emitted by a party, in order
 	Calls []*Call
 	seq   int
+	// KeepRaw makes the world keep the very slices the library returned (see Changed).
+	KeepRaw bool
+	held    []held
 	// OnCall, when set, sees every API call after it returned.
 	OnCall func(*Call)
 }
@@ -67,6 +71,36 @@ func NewWorld(a, b PartyOpts) *World {
 		b.Name = "B"
 	}
 	return &World{P: [2]*Party{NewParty(a), NewParty(b)}}
+}
+
+// held is an output of the library kept exactly as it was handed out, next to a copy taken at that moment.
+type held struct {
+	raw, cp []byte
+	what    string
+}
+
+// take copies the messages a call returned and, when KeepRaw is set, keeps hold of the originals too.
+func (w *World) take(v []otr3.ValidMessage, what string) [][]byte {
+	out := toBytes(v)
+	if w.KeepRaw {
+		for i, m := range v {
+			if len(m) > 0 {
+				w.held = append(w.held, held{raw: m, cp: out[i], what: what})
+			}
+		}
+	}
+	return out
+}
+
+// Changed reports the first output that no longer reads as it did when the library returned it: memory the
+// caller was given and that somebody wrote to afterwards.
+func (w *World) Changed() string {
+	for _, h := range w.held {
+		if string(h.raw) != string(h.cp) {
+			return fmt.Sprintf("a message returned by %s read %.40q when it was returned and reads %.40q now", h.what, h.cp, h.raw)
+		}
+	}
+	return ""
 }
 
 func toBytes(v []otr3.ValidMessage) [][]byte {
@@ -105,7 +139,7 @@ func (w *World) finish(c *Call, enqueue bool) *Call {
 func (w *World) Send(who int, text []byte) *Call {
 	c := w.begin(who, "Send", text)
 	out, err := w.P[who].C.Send(otr3.ValidMessage(append([]byte{}, text...)))
-	c.Out, c.Err = toBytes(out), err
+	c.Out, c.Err = w.take(out, w.P[c.Who].Name+"."+c.Name), err
 	return w.finish(c, true)
 }
 
@@ -114,7 +148,10 @@ func (w *World) Receive(who int, data []byte) *Call {
 	c := w.begin(who, "Receive", data)
 	plain, out, err := w.P[who].C.Receive(otr3.ValidMessage(append([]byte{}, data...)))
 	c.Plain, c.HasPl = append([]byte{}, plain...), plain != nil
-	c.Out, c.Err = toBytes(out), err
+	if w.KeepRaw && len(plain) > 0 {
+		w.held = append(w.held, held{raw: plain, cp: c.Plain, what: w.P[who].Name + ".Receive (the plaintext)"})
+	}
+	c.Out, c.Err = w.take(out, w.P[c.Who].Name+"."+c.Name), err
 	return w.finish(c, true)
 }
 
@@ -151,7 +188,7 @@ func (w *World) Query(who int) *Call {
 func (w *World) End(who int) *Call {
 	c := w.begin(who, "End", nil)
 	out, err := w.P[who].C.End()
-	c.Out, c.Err = toBytes(out), err
+	c.Out, c.Err = w.take(out, w.P[c.Who].Name+"."+c.Name), err
 	return w.finish(c, true)
 }
 
@@ -159,7 +196,7 @@ func (w *World) End(who int) *Call {
 func (w *World) SMPStart(who int, question string, secret []byte) *Call {
 	c := w.begin(who, "StartAuthenticate", secret)
 	out, err := w.P[who].C.StartAuthenticate(question, secret)
-	c.Out, c.Err = toBytes(out), err
+	c.Out, c.Err = w.take(out, w.P[c.Who].Name+"."+c.Name), err
 	return w.finish(c, true)
 }
 
@@ -167,7 +204,7 @@ func (w *World) SMPStart(who int, question string, secret []byte) *Call {
 func (w *World) SMPAnswer(who int, secret []byte) *Call {
 	c := w.begin(who, "ProvideAuthenticationSecret", secret)
 	out, err := w.P[who].C.ProvideAuthenticationSecret(secret)
-	c.Out, c.Err = toBytes(out), err
+	c.Out, c.Err = w.take(out, w.P[c.Who].Name+"."+c.Name), err
 	return w.finish(c, true)
 }
 
@@ -175,7 +212,7 @@ func (w *World) SMPAnswer(who int, secret []byte) *Call {
 func (w *World) SMPAbort(who int) *Call {
 	c := w.begin(who, "AbortAuthentication", nil)
 	out, err := w.P[who].C.AbortAuthentication()
-	c.Out, c.Err = toBytes(out), err
+	c.Out, c.Err = w.take(out, w.P[c.Who].Name+"."+c.Name), err
 	return w.finish(c, true)
 }
 
@@ -184,7 +221,7 @@ func (w *World) ExtraKey(who int, usage uint32, data []byte) *Call {
 	c := w.begin(who, "UseExtraSymmetricKey", data)
 	key, out, err := w.P[who].C.UseExtraSymmetricKey(usage, data)
 	c.Plain = append([]byte{}, key...)
-	c.Out, c.Err = toBytes(out), err
+	c.Out, c.Err = w.take(out, w.P[c.Who].Name+"."+c.Name), err
 	return w.finish(c, true)
 }
 
